@@ -55,12 +55,35 @@ def _context(path, line, node, back=4000, keep=12):
     return list(ctx)
 
 
-def validate(pid, out, path, what, timeout=3000, sub="cloud"):
-    """TLC replays the event trace through Trace_Cloud with the rules of `pid` enforced.  Every deviation becomes a
-    violation `cloud|<rule>`.  Returns (events, statistics)."""
+def _chunks(path, wd, limit):
+    """splits a trace at run boundaries (reset events) into files of at most `limit` events; returns [(file, first line)]"""
     n = V.count_lines(path)
-    if n == 0:
-        raise V.ToolError("%s: empty cloud trace %s" % (pid, path))
+    if n <= limit:
+        return [(path, 1)]
+    res, cur, cur_n, first, k = [], None, 0, 1, 0
+    with open(path) as f:
+        for i, l in enumerate(f, 1):
+            if l.startswith('{"now"') and '"op":"reset"' in l and (cur is None or cur_n >= limit):
+                if cur is not None:
+                    cur.close()
+                k += 1
+                fn = os.path.join(wd, "cloud_chunk_%d.ndjson" % k)
+                cur, cur_n, first = open(fn, "w"), 0, i
+                res.append((fn, first))
+            if cur is None:      # a trace that does not start with a reset event
+                k += 1
+                fn = os.path.join(wd, "cloud_chunk_%d.ndjson" % k)
+                cur, cur_n, first = open(fn, "w"), 0, i
+                res.append((fn, first))
+            cur.write(l)
+            cur_n += 1
+    if cur is not None:
+        cur.close()
+    return res
+
+
+def _validate_one(pid, path, timeout, sub):
+    n = V.count_lines(path)
     v = V.tlc_trace("Trace_Cloud.tla", "Trace_Cloud.cfg", pid, path, n, timeout=timeout, extra_env=env_for(pid), sub=sub, xmx="6g")
     rules = re.findall(r'<<"RULE", (\d+), "([^"]+)">>', v.out)
     if not v.accepted and not rules:
@@ -70,16 +93,35 @@ def validate(pid, out, path, what, timeout=3000, sub="cloud"):
         # the trace was not consumed to its end although rules never block: an event the specification has no case for
         V.log(v.out[-2000:])
         raise V.ToolError("%s: Trace_Cloud stopped at event %s of %s" % (pid, v.matched, path))
+    return n, rules
+
+
+def validate(pid, out, path, what, timeout=3000, sub="cloud", limit=250000):
+    """TLC replays the event trace through Trace_Cloud with the rules of `pid` enforced (long traces in pieces cut at
+    run boundaries, a few TLC processes side by side).  Every deviation becomes a violation `cloud|<rule>`.
+    Returns (events, statistics)."""
+    import concurrent.futures
+    if V.count_lines(path) == 0:
+        raise V.ToolError("%s: empty cloud trace %s" % (pid, path))
+    wd = V.workdir(pid, sub + "-chunks")
+    for f in os.listdir(wd):
+        os.remove(os.path.join(wd, f))
+    chunks = _chunks(path, wd, limit)
+    with concurrent.futures.ThreadPoolExecutor(max_workers=4) as ex:
+        futs = [ex.submit(_validate_one, pid, fn, timeout, "%s%d" % (sub, k)) for k, (fn, _) in enumerate(chunks)]
+        results = [f.result() for f in futs]
+    n = sum(r[0] for r in results)
     first = {}
     count = collections.Counter()
-    for ln, name in rules:
-        count[name] += 1
-        first.setdefault(name, int(ln))
-    for name, ln in sorted(first.items(), key=lambda x: x[1]):
-        e = _event(path, ln) or {}
+    for (fn, _), (_, rules) in zip(chunks, results):
+        for ln, name in rules:
+            count[name] += 1
+            first.setdefault(name, (fn, int(ln)))
+    for name, (fn, ln) in sorted(first.items(), key=lambda x: x[1][1]):
+        e = _event(fn, ln) or {}
         desc = "%s: rule %s of Cloud.tla/Trace_Cloud.tla is broken by event %d (%s%s at node %s), %d occurrence(s)" % (
             what, name, ln, e.get("op"), "/" + e.get("res", "") if e.get("res") else "", e.get("n"), count[name])
-        out.violation("cloud|" + name, desc, {"rule": name, "line": ln, "event": e, "before": _context(path, ln - 1, e.get("n")),
+        out.violation("cloud|" + name, desc, {"rule": name, "line": ln, "event": e, "before": _context(fn, ln - 1, e.get("n")),
                                                "how": "TLC: Trace_Cloud.tla with VP_ENF_%s=1 on the recorded trace" % pid})
     stats = collections.Counter()
     with open(path) as f:
@@ -147,16 +189,22 @@ def selftest(pid, out, path):
     return "%s at trace line %d reported by TLC as rule %s" % (what, hit, rule)
 
 
-def part(pid, tier, out, cov, runs=None):
-    """The Cloud.tla part of a node-level check: scenario runs of the cloud driver, event-by-event validation with the
-    rules of `pid`, binding self-test; the numbers go into the evidence coverage `cov`."""
+def part(pid, tier, out, cov, runs=None, extra=None):
+    """The Cloud.tla part of a node-level check: scenario runs of the cloud driver (and `extra`: event traces of sampled
+    runs of the check's own node-level plans, {label: file}), event-by-event validation with the rules of `pid`, binding
+    self-test; the numbers go into the evidence coverage `cov`."""
     wd = V.workdir(pid)
     tp = os.path.join(wd, "cloud.ndjson")
     s = scenario_trace(pid, tier, tp, runs)
     n, stats = validate(pid, out, tp, "cloud scenarios (%d runs)" % s["runs"])
+    own = {}
+    for label, path in (extra or {}).items():
+        if os.path.exists(path) and V.count_lines(path) > 0:
+            m, st2 = validate(pid, out, path, "%s (sampled runs, event by event)" % label, sub="cloudx")
+            own[label] = {"events_validated": m, "events_by_kind": st2}
     st = selftest(pid, out, tp)
     cov["cloud"] = {"module": "Cloud.tla / Trace_Cloud.tla", "runs": s["runs"], "events_validated": n, "events_by_kind": stats,
-                    "rules_enforced": "rules tagged %s" % pid, "self_test": st}
+                    "own_plans_event_by_event": own, "rules_enforced": "rules tagged %s" % pid, "self_test": st}
     cov["traces_validated_against_impl"] = cov.get("traces_validated_against_impl", 0) + s["runs"]
     return n
 
